@@ -16,6 +16,28 @@ Nothing of the repo is imported or executed.  A function body is walked path by 
    fact `counter >= value before the loop`); the negated `while` test is a fact after the loop.
 
 Rules read the recorded events (`call`, `assign`, `store`, `return`, `for`, `while`, `loopend`, `format`) with their facts.
+
+Third pass - what is followed in addition (each form has a behaviour-preserving and a broken recipe in recipes_c13.py):
+ * functions are values with an identity (two `def`s of one name in different arms are different functions); default values are evaluated where
+   the `def` / lambda is executed; a function that outlives the call that defined it (returned by a helper, a decorator's wrapper) keeps the
+   environment that call left behind (`closure`); a public function decorated with helpers of its module is evaluated as the decorated object
+   called with its own parameters; a nested function rebinds the names it declares `nonlocal` (and the lists of the enclosing function it appends
+   to) in the frame they live in; a function that calls itself in tail position only is evaluated as the loop it spells, any other recursion is
+   Unsupported (nothing may be concluded from a call that is not followed but may write);
+ * a module-level dictionary that starts empty and is touched by one function only through `D[k]`, `D[k] = v`, `k in D`, `D.get(k)`,
+   `D.setdefault(k, v)` is a memo: the miss path is evaluated, a hit returns what an earlier miss stored under the same key - justified by the
+   checks made at every store (the value and every test made while it was computed are functions of the key, one key has one value on all
+   paths of the evaluation, call sites that bring their own way of computing the value are told apart by a literal key component);
+ * `try: TABLE[key] except KeyError: ...` on a literal table forks into one state per key and the handler for any other key; a literal table with
+   integer keys read with an unknown key forks the same way (the remaining case raises);
+ * `match` with class patterns without sub-patterns (isinstance), captures, fixed-length sequence patterns over a tuple written in place;
+ * io.StringIO objects used only as text accumulators are the string written to them so far; bound methods / functions of other modules / partial
+   objects of functions that are not followed, held by a local, are the call they stand for; `yield from`; `with` on a context manager class of
+   the module (__enter__ / __exit__ are run) or on a contextlib.contextmanager generator; an expression statement that is control flow in disguise
+   (`a and f()`, a comprehension evaluated for its effects, `list(map(f, xs))`) is the statement it stands for - and where output would be produced
+   inside an expression whose events are dropped (a comprehension's element, a later operand of `and` / `or`) the construct is Unsupported;
+ * `return` inside a loop leaves it like `break` (the path carries the other arms' events and a `loopexit`); the values helper calls were given
+   ahead of a statement are dropped after the statement (a loop body that is unrolled runs it again with other values).
 """
 from __future__ import annotations
 
@@ -1317,6 +1339,24 @@ def _strbufs(fnode):
     return out
 
 
+def _nonlocals(fnode):
+    """names a function declares `nonlocal` (it rebinds them in the function that encloses it)"""
+    c = getattr(fnode, "_c13_nonlocals", None)
+    if c is None:
+        c = {nm for n in walk_no_nested(fnode) if isinstance(n, ast.Nonlocal) for nm in n.names}
+        # ... and the lists of the enclosing function it changes in place (`pieces.append(x)` with `pieces` neither a parameter nor a local):
+        # this engine keeps a list as a value of the name, so changing it is rebinding the name
+        a = fnode.args
+        own = {x.arg for x in a.posonlyargs + a.args + a.kwonlyargs} | ({a.vararg.arg} if a.vararg else set()) | ({a.kwarg.arg} if a.kwarg else set())
+        own |= {n.id for n in walk_no_nested(fnode) if isinstance(n, ast.Name) and isinstance(n.ctx, ast.Store)} - c
+        for n in walk_no_nested(fnode):
+            if isinstance(n, ast.Call) and isinstance(n.func, ast.Attribute) and isinstance(n.func.value, ast.Name) and n.func.value.id not in own \
+                    and n.func.attr in ("append", "extend", "insert"):
+                c.add(n.func.value.id)
+        fnode._c13_nonlocals = c
+    return c
+
+
 def _is_generator(fnode):
     return any(isinstance(n, (ast.Yield, ast.YieldFrom)) for n in walk_no_nested(fnode))
 
@@ -1591,18 +1631,69 @@ class Engine:
             loop = self._as_loop(node, st)
             if loop is not None:
                 return self.for_(loop, st)
+            plain = self._as_statements(node)
+            if plain is not None:
+                return self.block(plain, [st])
         if isinstance(node, (ast.For, ast.AsyncFor)):
             return self.for_(node, st)
         if isinstance(node, ast.While):
             return self.while_(node, st)
         if isinstance(node, (ast.With, ast.AsyncWith)):
+            if isinstance(node, ast.With) and len(node.items) > 1:
+                # with A, B: body   is   with A: with B: body
+                inner = ast.copy_location(ast.With(items=node.items[1:], body=node.body, type_comment=None), node)
+                inner._vparent, inner._vmod = node, getattr(node, "_vmod", None)
+                outer = ast.copy_location(ast.With(items=node.items[:1], body=[inner], type_comment=None), node)
+                outer._vparent, outer._vmod = getattr(node, "_vparent", None), getattr(node, "_vmod", None)
+                return self.stmt(outer, st)
+            if isinstance(node, ast.With) and isinstance(node.items[0].context_expr, ast.Call):
+                it = node.items[0]
+                gen = self._generator_of(it.context_expr, st)
+                if gen is not None and any((dotted(d) or "").split(".")[-1] == "contextmanager" for d in gen[0].decorator_list) and self._yields_once(gen[0]):
+                    # a generator made into a context manager yields exactly once: `with cm(...) as x: BODY` runs what `for x in cm_gen(...): BODY` runs
+                    self.genseq = getattr(self, "genseq", 0) + 1
+                    tgt = it.optional_vars if it.optional_vars is not None else ast.copy_location(ast.Name(id=f"_cm${self.genseq}", ctx=ast.Store()), node)
+                    loop = ast.copy_location(ast.For(target=tgt, iter=it.context_expr, body=node.body, orelse=[], type_comment=None), node)
+                    loop._vparent, loop._vmod = getattr(node, "_vparent", None), getattr(node, "_vmod", None)
+                    r = self._for_generator(loop, gen, st)
+                    if r is not None:
+                        return r
             outs = []
             for s2 in self.simple_forks(node.items, st):
-                for it in node.items:
-                    v = self.ev(it.context_expr, s2)
-                    if it.optional_vars is not None:
-                        self.assign(it.optional_vars, v, s2, node)
-                outs.extend(self.block(node.body, [s2]))
+                managers = []
+                for s3 in self.helper_forks([it.context_expr for it in node.items], s2):
+                    if s3.status != "run":
+                        outs.append(s3)
+                        continue
+                    for it in node.items:
+                        v = self.ev(it.context_expr, s3)
+                        s3.pre = {}
+                        bound = v
+                        if isinstance(v, tuple) and v[:1] == ("obj",) and v[1] in self.classes and self._method(v[1], "__exit__") is not None:
+                            # an object of a class of the module: __enter__ runs now (what it returns is bound), __exit__ when the block is left
+                            managers.append(v)
+                            if self._method(v[1], "__enter__") is not None:
+                                r = self._call_method(v, "__enter__", [], node, s3)
+                                if r is None:
+                                    raise Unsupported(f"context manager {v[1]}.__enter__ has several paths")
+                                bound = r
+                        if it.optional_vars is not None:
+                            self.assign(it.optional_vars, bound, s3, node)
+                    for o in self.block(node.body, [s3]):
+                        if managers and o.status in ("break", "continue", "genreturn"):
+                            raise Unsupported("loop control leaving a `with` block of a context manager of the module")
+                        if managers and o.status in ("run", "return"):
+                            keep = o.status
+                            rets = [e for e in o.events if e.kind == "return"] if keep == "return" else []
+                            o.status = "run"
+                            for m_ in reversed(managers):
+                                none = ast.copy_location(ast.Constant(value=None), node)
+                                if self._call_method(m_, "__exit__", [none, none, none], node, o) is None:
+                                    raise Unsupported(f"context manager {m_[1]}.__exit__ has several paths")
+                            o.status = keep
+                            if rets:
+                                o.events = [e for e in o.events if e is not rets[-1]] + [rets[-1]]          # the block's `return` comes after __exit__
+                        outs.append(o)
             return outs
         if isinstance(node, ast.Match):
             chain = self._match_as_if(node)
@@ -2315,8 +2406,27 @@ class Engine:
             self.locals, self.nested = saved_locals, saved_nested
             self.strbufs = saved_bufs
         res = []
+        nl = _nonlocals(getattr(fnode, "_c13_origin", fnode))
+        depth_here = len(st.frames)
         for o in outs:
-            c = State(st.env, o.facts, o.events, st.loops, st.frames)
+            # the caller's frames as the callee leaves them: a name the callee (or one it called) declares `nonlocal` is rebound where it lives
+            base_env = o.frames[depth_here] if len(o.frames) > depth_here else st.env
+            frames = tuple(o.frames[:depth_here]) if len(o.frames) >= depth_here else st.frames
+            if nl and o.status in ("run", "return", "raise"):
+                upd = {n_: o.env[n_] for n_ in nl if n_ in o.env}
+                ikey = key[2] if isinstance(key, tuple) and key[:1] == ("closure",) else key
+                dd = getattr(self, "defdepth", {}).get(ikey)
+                if isinstance(key, tuple) and key[:1] == ("closure",):
+                    self._closure_envs[key[1]].update(upd)
+                elif dd is None or dd >= depth_here:
+                    base_env = dict(base_env)
+                    base_env.update(upd)
+                else:
+                    fl = list(frames)
+                    fl[dd] = dict(fl[dd])
+                    fl[dd].update(upd)
+                    frames = tuple(fl)
+            c = State(base_env, o.facts, o.events, st.loops, frames)
             c.pre = dict(st.pre)
             val = ("k", None)
             if o.status == "return":
@@ -2414,6 +2524,82 @@ class Engine:
             orelse = [cur]
         return orelse
 
+    @staticmethod
+    def _yields_once(fnode):
+        """one `yield` statement, outside any loop (directly in the body, or in the body of a `try` or `with` there)"""
+        ys = [n for n in walk_no_nested(fnode) if isinstance(n, (ast.Yield, ast.YieldFrom))]
+        if len(ys) != 1 or isinstance(ys[0], ast.YieldFrom):
+            return False
+        p = getattr(ys[0], "_vparent", None)
+        if not isinstance(p, ast.Expr):
+            return False
+        p = getattr(p, "_vparent", None)
+        while p is not None and p is not fnode:
+            if not isinstance(p, (ast.Try, ast.With)):
+                return False
+            p = getattr(p, "_vparent", None)
+        return p is fnode
+
+    def _call_method(self, obj, name, argnodes, node, st):
+        """run method `name` of an object of a module class in state `st` (which is updated); its value, or None when it has not exactly one path"""
+        call = ast.copy_location(ast.Call(func=ast.Attribute(value=_Val.of(obj), attr=name, ctx=ast.Load()), args=list(argnodes), keywords=[]), node)
+        call._vparent, call._vmod = getattr(node, "_vparent", None), getattr(node, "_vmod", None)
+        ast.copy_location(call.func, node)
+        ast.copy_location(call.func.value, node)
+        target = self.inlinable(call, st)
+        if target is None:
+            raise Unsupported(f"method {name} of {obj[1]} cannot be followed")
+        res = [(c, v) for c, v in self.inline(call, target, st) if c.status == "run"]
+        if len(res) != 1:
+            return None
+        c, v = res[0]
+        st.env, st.facts, st.events, st.frames = c.env, c.facts, c.events, c.frames
+        return v
+
+    def _as_statements(self, node):
+        """an expression statement that is control flow in disguise, as the statements it stands for (None for anything else):
+             a and b          ->  if a: b                    a or b  ->  if not a: b
+             [g(x) for x in xs if c]   (a list / set comprehension evaluated for its effects)  ->  for x in xs: if c: g(x)
+             list(map(g, xs)) / tuple(...) / collections.deque(map(g, xs), maxlen=0)           ->  for item in xs: g(item)"""
+        v = node.value
+
+        def put(n, like=node):
+            for x in ast.walk(n):
+                if isinstance(x, (ast.expr, ast.stmt)) and not hasattr(x, "lineno"):
+                    ast.copy_location(x, like)
+            n._vparent, n._vmod = getattr(node, "_vparent", None), getattr(node, "_vmod", None)
+            return n
+
+        def has_call(x):
+            return any(isinstance(y, ast.Call) for y in ast.walk(x))
+        if isinstance(v, ast.BoolOp) and has_call(v.values[-1]):
+            body = [put(ast.Expr(value=v.values[-1]))]
+            for t in reversed(v.values[:-1]):
+                test = t if isinstance(v.op, ast.And) else ast.UnaryOp(op=ast.Not(), operand=t)
+                body = [put(ast.If(test=test, body=body, orelse=[]))]
+            return body
+        if isinstance(v, (ast.ListComp, ast.SetComp)) and has_call(v.elt) and not any(g.is_async for g in v.generators):
+            body = [put(ast.Expr(value=v.elt))]
+            for g in reversed(v.generators):
+                for c in reversed(g.ifs):
+                    body = [put(ast.If(test=c, body=body, orelse=[]))]
+                body = [put(ast.For(target=g.target, iter=g.iter, body=body, orelse=[], type_comment=None))]
+            return body
+        if isinstance(v, ast.Call) and (dotted(v.func) or "") in ("list", "tuple", "set", "collections.deque", "deque") and len(v.args) == 1 \
+                and isinstance(v.args[0], ast.Call) and (dotted(v.args[0].func) or "") == "map" and len(v.args[0].args) == 2 and not v.args[0].keywords \
+                and ((dotted(v.func) or "").endswith("deque") == any(k.arg == "maxlen" for k in v.keywords)):
+            fn_, xs = v.args[0].args
+            self.genseq = getattr(self, "genseq", 0) + 1
+            tmp = f"item${self.genseq}m"
+            self.locals = set(self.locals) | {tmp}
+            call = ast.Call(func=fn_, args=[ast.Name(id=tmp, ctx=ast.Load())], keywords=[])
+            return [put(ast.For(target=ast.Name(id=tmp, ctx=ast.Store()), iter=xs, body=[ast.Expr(value=call)], orelse=[], type_comment=None))]
+        return None
+
+    @staticmethod
+    def _output_like(e):
+        return e.kind == "call" and (e.d.get("attr") in ("write", "writelines", "vecwrite") or (e.d.get("name") or "").split(".")[-1] in ("print", "vecwrite"))
+
     def _as_loop(self, node, st):
         """`xs.extend(f(a) for a in gen(...))`, `f.writelines(gen(...))` with `gen` a generator function of the module: the loop they stand for -
         `for a in gen(...): xs.append(f(a))` - so that the generator can be followed like in a `for` statement.  None for anything else."""
@@ -2461,6 +2647,19 @@ class Engine:
             out = []
             for i, s_ in enumerate(stmts):
                 last = tail and i == len(stmts) - 1
+                if isinstance(s_, ast.Expr) and isinstance(s_.value, ast.YieldFrom):
+                    # `yield from xs`  is  `for item in xs: yield item`
+                    self.genseq = getattr(self, "genseq", 0) + 1
+                    tmp = f"item${self.genseq}y"
+                    y_ = ast.Expr(value=ast.Yield(value=ast.Name(id=tmp, ctx=ast.Load())))
+                    loop_ = ast.For(target=ast.Name(id=tmp, ctx=ast.Store()), iter=s_.value.value, body=[y_], orelse=[], type_comment=None)
+                    for n_ in (loop_, loop_.target, y_, y_.value, y_.value.value):
+                        ast.copy_location(n_, s_)
+                        n_._vmod = getattr(s_, "_vmod", None)
+                    loop_._vparent = getattr(s_, "_vparent", None)
+                    loop_.target._vparent, y_._vparent, y_.value._vparent, y_.value.value._vparent = loop_, loop_, y_, y_.value
+                    self.locals = set(self.locals) | {tmp}
+                    s_ = loop_
                 if isinstance(s_, ast.Expr) and isinstance(s_.value, ast.Yield):
                     yb = _YieldBlock()
                     yb.target, yb.body = node.target, node.body
@@ -2661,7 +2860,46 @@ class Engine:
                 else:
                     nxt.append(s)
             states = nxt
+        # a literal table with integer keys read with a key that is not known: one state per key (the lookup raises KeyError for any other value)
+        for n in reversed([x for x in tables if isinstance(x.ctx, ast.Load) and not isinstance(x.slice, (ast.Tuple, ast.Slice))]):
+            nxt = []
+            for s in states:
+                try:
+                    b = self.ev(n.value, s)
+                    key = self.ev(n.slice, s) if isinstance(b, tuple) and b[:1] == ("dict",) else None
+                except Unsupported:
+                    b = key = None
+                if not (isinstance(b, tuple) and b[:1] == ("dict",) and b[1] and isinstance(key, Lin) and not key.is_const() and all(is_int_const(k) for k, _ in b[1])
+                        and len(b[1]) <= 8) or self._in_lookup_try(n):
+                    nxt.append(s)
+                    continue
+                miss = s
+                for k, _ in b[1]:
+                    t = ("cmp", "Eq") + tuple(sorted((k, key), key=repr))
+                    r = self.decide(t, miss)
+                    if r is True:
+                        nxt.append(miss)
+                        miss = None
+                        break
+                    if r is None:
+                        h_ = miss.fork()
+                        h_.add_fact(t, True)
+                        miss.add_fact(t, False)
+                        nxt.append(h_)
+                if miss is not None:
+                    self.emit(miss, "raise", n)
+                    miss.status = "raise"
+                    nxt.append(miss)
+            states = nxt
         return states
+
+    def _in_lookup_try(self, n):
+        """the lookup is the statement of a `try` whose handler catches the KeyError (handled by _lookup_try)"""
+        p = getattr(n, "_vparent", None)
+        while p is not None and not isinstance(p, ast.stmt):
+            p = getattr(p, "_vparent", None)
+        t = getattr(p, "_vparent", None) if p is not None else None
+        return isinstance(t, ast.Try) and p in t.body and len(t.body) == 1
 
     def _key_tests(self, sl, st, boolpos=None):
         """the truth values among the components of a lookup key (any non-constant component where the table's keys are True / False)"""
@@ -2855,6 +3093,8 @@ class Engine:
                     continue
                 if isinstance(n, ast.Name) and isinstance(n.ctx, ast.Store):
                     names.add(n.id)
+                if isinstance(n, ast.Call) and isinstance(n.func, ast.Name) and n.func.id in self.nested:
+                    names |= self._nonlocals_of(self.nested[n.func.id])        # a nested function rebinds what it declares `nonlocal`
                 if isinstance(n, ast.Call) and isinstance(n.func, ast.Attribute) and isinstance(n.func.value, ast.Name) and n.func.attr == "write" \
                         and n.func.value.id in self.strbufs:
                     names.add(n.func.value.id)              # text accumulated in an io.StringIO: the buffer is the string so far
@@ -2911,6 +3151,18 @@ class Engine:
                 # the sign says which way the counter moves; the magnitude is the step when every update uses the same one (else 1)
                 incs[nm] = (+1 if True in signs else -1) * (next(iter(mags)) if len(mags) == 1 else 1)
         return names, incs
+
+    def _nonlocals_of(self, fnode, seen=None):
+        """what a call of the nested function may rebind in the enclosing function: its `nonlocal` names and those of the nested functions it calls"""
+        seen = seen if seen is not None else set()
+        if id(fnode) in seen:
+            return set()
+        seen.add(id(fnode))
+        out = set(_nonlocals(fnode))
+        for n in walk_no_nested(fnode):
+            if isinstance(n, ast.Call) and isinstance(n.func, ast.Name) and n.func.id in self.nested and self.nested[n.func.id] is not fnode:
+                out |= self._nonlocals_of(self.nested[n.func.id], seen)
+        return out
 
     def _havoc(self, st, names, incs, tag):
         pre = {}
@@ -3223,7 +3475,10 @@ class Engine:
         if not normal or any(e.status == "break" for e in ends):
             return
         for nm in names:
-            if pre.get(nm) != ("tuple", ()):
+            before = pre.get(nm)
+            if not (isinstance(before, tuple) and before[:1] == ("tuple",) and not any(isinstance(x, tuple) and x[:1] == ("star",) for x in before[1])):
+                continue
+            if before[1] and not (isinstance(it, tuple) and it[:1] == ("range",)):
                 continue
             sym = ("sym", f"{nm}@L{lid}")
             items = set()
@@ -3234,7 +3489,9 @@ class Engine:
                     break
                 items.add(apps[0].d["args"][0])
             if items and len(items) == 1:
-                post.env[nm] = ("built", next(iter(items)), lid, it if isinstance(it, tuple) and it[:1] == ("range",) else None)
+                built = ("built", next(iter(items)), lid, it if isinstance(it, tuple) and it[:1] == ("range",) else None)
+                # a list that held known items before the loop: those, followed by the generated ones
+                post.env[nm] = built if not before[1] else ("tuple", before[1] + (("star", _built_as_comp(built)),))
 
     def _counted(self, wev, t, ends, names, pre, lid):
         """`c = lo; while c < hi: ...; c += k` (every pass, no other way out) is `for c in range(lo, hi, k)`: recorded on the `while` event as
@@ -3657,6 +3914,9 @@ class Engine:
                     elts = None
                     if isinstance(b, tuple) and b and b[0] == "dict":
                         b = ("tuple", tuple(k for k, _ in b[1]))
+                    if isinstance(b, tuple) and b[:1] == ("range",) and all(is_int_const(x) for x in b[1:]) and ival(b[3]) != 0 \
+                            and len(range(ival(b[1]), ival(b[2]), ival(b[3]))) <= 64 and isinstance(a, Lin):
+                        b = ("tuple", tuple(Lin(c=x) for x in range(ival(b[1]), ival(b[2]), ival(b[3]))))      # n in range(16, 33, 16)
                     if isinstance(b, tuple) and b and b[0] in ("tuple", "set"):
                         elts = tuple(sorted(b[1], key=repr))
                         if elts and all(isinstance(x, Lin) or (_is_k(x) and isinstance(x[1], float) and x[1] == int(x[1])) for x in elts) and not isinstance(a, S):
@@ -3694,7 +3954,13 @@ class Engine:
                 return tests[0]
             return ("bool", "and", tuple(tests))
         if isinstance(node, ast.BoolOp):
-            vals = tuple(self.ev(v, st) for v in node.values)
+            vals = []
+            for i_, v_ in enumerate(node.values):
+                n0 = len(st.events)
+                vals.append(self.ev(v_, st))
+                if i_ and any(self._output_like(e) for e in st.events[n0:]):
+                    raise Unsupported("output under `and` / `or` inside an expression (the operand is evaluated only if the ones before it allow)")
+            vals = tuple(vals)
             kind = "and" if isinstance(node.op, ast.And) else "or"
             # operands that are constants drop out (x and True is x) or decide the whole (x and False)
             keep = []
@@ -3744,7 +4010,10 @@ class Engine:
             k = ("sym", f"<k>@L{lid}")
             tv = self._iter_elem(it, k, sub, lid)
             self.assign(g.target, tv, sub, node)
+            n0 = len(sub.events)
             elt = self.ev(node.elt, sub)
+            if any(self._output_like(e) for e in sub.events[n0:]):
+                raise Unsupported("a comprehension whose element writes (evaluated for its effects inside an expression)")
             return ("comp", elt, it, tv, lid)
         if isinstance(node, ast.DictComp) and len(node.generators) == 1 and not node.generators[0].ifs and not node.generators[0].is_async:
             # {k: v for ...}: one store per pass, like `out[k] = v` in a loop
@@ -3783,7 +4052,10 @@ class Engine:
             if len(out) > limit:
                 return False
             if gi == len(node.generators):
+                n0 = len(sub.events)
                 out.append(self.ev(node.elt, sub))
+                if any(self._output_like(e) for e in sub.events[n0:]):
+                    raise Unsupported("a comprehension whose element writes (evaluated for its effects inside an expression)")
                 return True
             g = node.generators[gi]
             it = self.ev(g.iter, sub)
@@ -3806,7 +4078,48 @@ class Engine:
         return None
 
     # ------------------------------------------------------------------------------------------------------------ calls
+    def _unalias(self, node, st):
+        """a call through a local that only names something else - a bound method (`put = f.write`), a function of another module
+        (`vw = writer.vecwrite`), functools.partial of a function that is not followed (`emit = partial(print, file=f)`) - is the call it stands for"""
+        if not isinstance(node.func, ast.Name) or getattr(node, "_c13_unaliased", False):
+            return None
+        b = st.env.get(node.func.id)
+        if not isinstance(b, tuple):
+            return None
+        func, pre_args, pre_kws = None, (), ()
+        if b[:1] == ("partial",) and isinstance(b[1], tuple) and b[1][:1] == ("sym",) and self._resolve_callable(b, None, st) is None:
+            pre_args, pre_kws = b[2], b[3]
+            b = b[1]
+            if b[1] == node.func.id:
+                return None
+        if b[:1] == ("attr",) and len(b) == 3 and isinstance(b[2], str):
+            base = b[1]
+            bn = ast.Name(id=base[1], ctx=ast.Load()) if isinstance(base, tuple) and base[:1] == ("sym",) and str(base[1]).isidentifier() \
+                and st.env.get(base[1]) == base else _Val.of(base)
+            func = ast.Attribute(value=bn, attr=b[2], ctx=ast.Load())
+        elif b[:1] == ("sym",) and isinstance(b[1], str) and b[1] != node.func.id and "@" not in b[1] and all(x.isidentifier() for x in b[1].split(".")) \
+                and b[1].split(".")[0] not in st.env and (pre_args or pre_kws or b[1].split(".")[0] not in self.locals):
+            parts = b[1].split(".")
+            func = ast.Name(id=parts[0], ctx=ast.Load())
+            for x in parts[1:]:
+                func = ast.Attribute(value=func, attr=x, ctx=ast.Load())
+        if func is None:
+            return None
+        new = ast.Call(func=func, args=[_Val.of(a) for a in pre_args] + list(node.args),
+                       keywords=[ast.keyword(arg=k, value=_Val.of(v)) for k, v in pre_kws if k not in {kw.arg for kw in node.keywords}] + list(node.keywords))
+        for n_ in ast.walk(new):
+            if not hasattr(n_, "lineno") and isinstance(n_, (ast.expr, ast.keyword)):
+                ast.copy_location(n_, node)
+        ast.copy_location(new, node)
+        new._vparent, new._vmod = getattr(node, "_vparent", None), getattr(node, "_vmod", None)
+        new.func._vparent = new
+        new._c13_unaliased = True
+        return new
+
     def call(self, node, st):
+        alias = self._unalias(node, st)
+        if alias is not None:
+            return self.call(alias, st)
         name = dotted(node.func)
         recv = None
         attr = None
@@ -3973,6 +4286,29 @@ class Engine:
             return ("tuple", tuple(y for x in args[0][1] for y in x[1]))          # known lists chained: one known list
         if name in ("itertools.chain", "chain") and nargs >= 1 and not kws and all(conc(x) for x in args):
             return ("tuple", tuple(y for x in args for y in x[1]))
+        if name in ("any", "all") and nargs == 1 and not kws and isinstance(args[0], tuple) and args[0][:1] == ("tuple",) \
+                and not any(isinstance(x, tuple) and x[:1] == ("star",) for x in args[0][1]):
+            # any / all over items that are known one by one: the disjunction / conjunction of their truth values
+            ts = []
+            for x in args[0][1]:
+                if isinstance(x, Lin):
+                    x = ("k", x.c != 0) if x.is_const() else ("not", ("cmp", "Eq") + tuple(sorted((Lin(), x), key=repr)))
+                elif isinstance(x, S):
+                    r_ = truth(x, {})
+                    if r_ is None:
+                        ts = None
+                        break
+                    x = ("k", r_)
+                ts.append(x)
+            if ts is not None:
+                kind = "or" if name == "any" else "and"
+                decided = [truth(x, {}) for x in ts]
+                if any(r_ is (kind == "or") for r_ in decided):
+                    return ("k", kind == "or")
+                ts = [x for x, r_ in zip(ts, decided) if r_ is None]
+                if not ts:
+                    return ("k", kind == "and")
+                return ts[0] if len(ts) == 1 else ("bool", kind, tuple(ts))
         if name == "bool" and nargs == 1 and not kws:
             return args[0] if not isinstance(args[0], (Lin, S)) else ("not", ("cmp", "Eq", Lin(), args[0])) if isinstance(args[0], Lin) else ("k", bool(args[0].p))
         if name == "map" and nargs >= 2 and not kws and isinstance(args[0], tuple) and args[0][:1] == ("attr",) and args[0][2] == "format" and self.is_str(args[0][1]):
@@ -4019,6 +4355,8 @@ class Engine:
                         else:
                             parts.append(("join", "", e[1]))
                     return S(parts)
+                if isinstance(x, tuple) and x[:1] == ("built",):
+                    x = _built_as_comp(x)
                 if isinstance(x, tuple) and x and x[0] == "comp":
                     return S((("join", recv.text(), x),))
         if attr == "_replace" and isinstance(recv, tuple) and recv[:1] == ("obj",) and not args:
@@ -4214,6 +4552,13 @@ class Engine:
                 nargs = nargs + 1
         self.emit(st, "format", node, template=tmpl, items=items, args=args, nfields=nfields, nargs=nargs, value=res)
         return res
+
+
+def _built_as_comp(b):
+    """a list filled by one append per pass of a `for ... in range(...)` loop, seen as the comprehension over that range it spells"""
+    if isinstance(b, tuple) and b[:1] == ("built",) and len(b) > 3 and b[3] is not None:
+        return ("comp", b[1], b[3], lin(("sym", f"<i>@L{b[2]}")), b[2])
+    return b
 
 
 def _intlike(v):
